@@ -12,6 +12,7 @@ import (
 	"sort"
 	"strings"
 	"sync"
+	"time"
 )
 
 // A Suite generates case lines (key=value fields, without the id) and runs one case against the library.
@@ -108,7 +109,8 @@ func main() {
 		go func(i int) {
 			defer wg.Done()
 			defer func() { <-sem }()
-			results[i] = safeRun(s, parseKV(lines[i]))
+			t0 := time.Now()
+			results[i] = safeRun(s, parseKV(lines[i])) + fmt.Sprintf(" dur=%d", time.Since(t0).Milliseconds())
 		}(i)
 	}
 	wg.Wait()
